@@ -81,6 +81,12 @@ func (w *World) modelOnly(op Op) {
 		if okAll {
 			m.SaveVersion()
 		}
+	case OpColdDelFrom:
+		m.Reopen()
+		if m.Has(op.Ver) {
+			m.LoadVersion(op.Ver)
+			m.Truncate(op.Ver)
+		}
 	case OpExportOpen:
 		m.Pins[op.Ver]++
 	case OpExportClose:
